@@ -258,9 +258,9 @@ def bytesOf (s : String) : List UInt8 := s.toUTF8.toList
 
 /-- the text an evaluated interpolation segment contributes, `none` = give up (`Unknown`) -/
 def segText : LuaValue N → Option (List UInt8)
-  | .false_ => some [102, 97, 108, 115, 101]
-  | .true_ => some [116, 114, 117, 101]
-  | .nil => some [110, 105, 108]
+  | .false_ => some "false".toUTF8.toList
+  | .true_ => some "true".toUTF8.toList
+  | .nil => some "nil".toUTF8.toList
   | .string s => some s
   | _ => none
 
